@@ -135,6 +135,61 @@ theorem alookup_ainsert (l : List (κ × β)) (k x : κ) (v : β) :
   · subst h; simp [alookup_ainsert_self]
   · simp [h, alookup_ainsert_ne l v h]
 
+theorem alookup_aerase (l : List (κ × β)) (k x : κ) :
+    alookup (aerase l k) x = if k = x then none else alookup l x := by
+  induction l with
+  | nil => simp [aerase, alookup]
+  | cons e r ih =>
+    obtain ⟨k', w⟩ := e
+    unfold aerase at ih ⊢
+    by_cases h1 : k' = k
+    · subst h1
+      by_cases h2 : k' = x
+      · subst h2; simpa [List.filter_cons, alookup] using ih
+      · simp only [List.filter_cons, ne_eq, not_true_eq_false, decide_false, Bool.false_eq_true,
+          if_false, alookup, h2]
+        simpa [h2] using ih
+    · by_cases h2 : k = x
+      · subst h2
+        simp only [List.filter_cons, ne_eq, h1, not_false_eq_true, decide_true, if_true, alookup,
+          if_false]
+        simpa using ih
+      · simp only [List.filter_cons, ne_eq, h1, not_false_eq_true, decide_true, if_true, alookup, h2,
+          if_false]
+        by_cases h3 : k' = x
+        · simp [h3]
+        · simp only [h3, if_false]; simpa [h2] using ih
+
+theorem alookup_aerase_self (l : List (κ × β)) (k : κ) : alookup (aerase l k) k = none := by
+  simp [alookup_aerase]
+
+theorem alookup_aerase_ne (l : List (κ × β)) {k x : κ} (h : k ≠ x) :
+    alookup (aerase l k) x = alookup l x := by
+  simp [alookup_aerase, h]
+
+theorem aerase_length_lt (l : List (κ × β)) (k : κ) {v : β} (h : alookup l k = some v) :
+    (aerase l k).length < l.length := by
+  induction l with
+  | nil => simp [alookup] at h
+  | cons e r ih =>
+    obtain ⟨k', w⟩ := e
+    unfold aerase
+    by_cases h1 : k' = k
+    · subst h1
+      simp only [List.filter_cons, ne_eq, not_true_eq_false, decide_false, Bool.false_eq_true, if_false,
+        List.length_cons]
+      have := List.length_filter_le (fun e : κ × β => decide (e.1 ≠ k')) r
+      simp only [ne_eq] at this
+      omega
+    · simp only [alookup, h1, if_false] at h
+      have := ih h
+      unfold aerase at this
+      simp only [ne_eq] at this
+      simp only [List.filter_cons, ne_eq, h1, not_false_eq_true, decide_true, if_true, List.length_cons]
+      omega
+
+theorem alookup_nil (k : κ) : alookup ([] : List (κ × β)) k = none := rfl
+
 end AList
 
 end Traffic
